@@ -1,1 +1,98 @@
-import PyshaclModel
+/-
+  C13 — focus_nodes / use_shapes select a sub-report of the full validation.
+
+  Model-level statements (every shapes graph, data graph, option vector, nesting depth):
+  * the filter touches nothing but the focus list of shapes that resolve their own targets: every nested
+    evaluation (value nodes reached through sh:property, sh:node, logical, qualified shapes) is literally the
+    same computation with and without `focus_nodes`  — so filtering cannot hide or invent a nested result;
+  * under `focus_nodes = F` the focus list of a shape has exactly the members the unfiltered focus list has on
+    any shapes graph in which the shape's targets are narrowed to the IRIs of F it already targets (the
+    property's target-rewritten copy), and the shape is skipped in the one run iff it is in the other;
+  * `use_shapes = U` evaluates exactly the shapes of U (shape cache = U and what U references);
+  * both options: every shape of U is applied to every node of F, whatever it targets.
+  What is not proved here (`…_partial` in the sense of DESIGN.md): that the report is a function of the focus
+  list as a set (order-independence of the constraint loop) and that `_build_node_shape_cache_from_list`
+  yields the same `Shape` objects as the full harvest — both are compared on the real code by the harness
+  (run with the options vs run on the rewritten shapes graph).
+-/
+import PyshaclProofs.FocusProofs
+namespace Pyshacl.C13
+open Pyshacl
+
+theorem nested_checks_unfiltered (c : Ctx) (fuel : Nat) (s : Shape) (fs : List Term) (path : Option (List PathEntry)) :
+    validateShape c.noFilter fuel s (some fs) path = validateShape c fuel s (some fs) path :=
+  validateShape_explicit c fuel s fs path
+
+/-- `focus_nodes = F` ≡ targets narrowed to the nodes of F the shape already targets (focus lists as sets) -/
+theorem focus_narrows_targets_partial (c c' : Ctx) (s s' : Shape) (F : List Term) (hF : F ≠ [])
+    (hc : c.o.focusNodes = some F) (hc' : c'.o.focusNodes = none) (hdg : c'.dg = c.dg) (hnode : s'.node = s.node)
+    (hrewrite : ∀ n, IsTarget c'.sg c.dg s.node n ↔ (IsTarget c.sg c.dg s.node n ∧ n.isIri = true ∧ n ∈ F)) :
+    (resolveFocus c s none = none ↔ resolveFocus c' s' none = none) ∧
+    ∀ fl fl', resolveFocus c s none = some fl → resolveFocus c' s' none = some fl' → ∀ n, n ∈ fl ↔ n ∈ fl' := by
+  have h1 := resolveFocus_filtered c s F [] hF hc
+  have h2 := resolveFocus_unfiltered c' s' [] hc'
+  simp only [List.append_nil] at h1 h2
+  rw [hdg, hnode] at h2
+  have key : ∀ n, n ∈ focusNodes c'.sg c.dg s.node ↔ (n ∈ focusNodes c.sg c.dg s.node ∧ n.isIri = true ∧ n ∈ F) := by
+    intro n
+    rw [focus_exact, focus_exact]
+    exact hrewrite n
+  constructor
+  · rw [h1.2, h2.2]
+    constructor
+    · intro h
+      cases hl : focusNodes c'.sg c.dg s.node with
+      | nil => rfl
+      | cons x xs => exact absurd ((key x).1 (by rw [hl]; simp)) (h x)
+    · intro h n hn
+      have := (key n).2 hn
+      rw [h] at this; cases this
+  · intro fl fl' hfl hfl' n
+    rw [h1.1 fl hfl n, h2.1 fl' hfl' n, key n]
+
+/-- both options: each selected shape is applied to each node of F irrespective of target declarations -/
+theorem both_applies_each_shape_to_each_node (c : Ctx) (s : Shape) (F : List Term) (hF : F ≠ []) :
+    ∃ fl, resolveFocus c s (some F) = some fl ∧ ∀ n, n ∈ fl ↔ n ∈ F :=
+  resolveFocus_both c s F [] hF
+
+/-- `use_shapes = U`: the run evaluates exactly the shapes named in U (in that order), over the shape cache
+    gathered from U; nothing else is validated -/
+theorem use_shapes_runs_selected_only (o : Opts) (hadv : o.advanced = false) (sg dg : Graph) (rx : Regex)
+    (focus U : List Term) (hU : U ≠ []) (conf : Bool) (rs : List Result)
+    (h : runValidate o sg dg rx focus U = .ok (conf, rs)) :
+    ∃ shapes selected, buildShapesFromList sg U = .ok shapes ∧ selected.map (·.node) = U ∧
+      (∀ s ∈ selected, s ∈ shapes) ∧
+      validateAll ⟨⟨sg, dg, shapes, rx, fun _ _ => none, fun _ => none, findComponents sg, fun _ _ _ _ => none, [], [], {}⟩, o⟩
+        selected (if focus = [] then none else some focus) = .ok (conf, rs) := by
+  unfold runValidate at h
+  simp only [hadv, Bool.false_eq_true, if_false] at h
+  split at h
+  · cases h
+  · cases U with
+    | nil => exact absurd rfl hU
+    | cons u us =>
+      split at h
+      · cases h
+      · rename_i shapes hshapes
+        split at h
+        · cases h
+        · rename_i selected hsel
+          obtain ⟨hm1, hm2⟩ := mapE_lookup shapes _ _ selected hsel
+          refine ⟨shapes, selected, hshapes, hm1, hm2, ?_⟩
+          · split at h
+            · rename_i hf; simp only [hf, if_true]; exact h
+            · rename_i hf; simp only [hf, if_false]; exact h
+
+/-! non-vacuity: the repaired defect — a violating value node outside F is still reported for the selected focus node -/
+def exN (s : String) : Term := .iri ("http://ex.test/" ++ s)
+def sgEx : Graph :=
+  [⟨exN "S", rdfType, shNodeShape⟩, ⟨exN "S", shTargetNode, exN "a"⟩, ⟨exN "S", shTargetNode, exN "b"⟩,
+   ⟨exN "S", shProperty, .bnode "p"⟩, ⟨.bnode "p", shPath, exN "q"⟩, ⟨.bnode "p", shNode, exN "N"⟩,
+   ⟨exN "N", rdfType, shNodeShape⟩, ⟨exN "N", sh "class", exN "C"⟩]
+def dgEx : Graph := [⟨exN "a", exN "q", exN "x"⟩]
+example : (runValidate {} sgEx dgEx (fun _ _ _ => none) [exN "a"] []).toOption.map (fun p => (p.1, p.2.length)) = some (false, 1) := by
+  decide
+example : (runValidate {} sgEx dgEx (fun _ _ _ => none) [exN "b"] []).toOption.map (fun p => (p.1, p.2.length)) = some (true, 0) := by
+  decide
+
+end Pyshacl.C13
